@@ -2128,7 +2128,8 @@ def inline_single_use_temporaries(index):
                     blk = getattr(st, fld, None)
                     if isinstance(blk, list) and blk and isinstance(blk[0], ast.stmt) and not isinstance(st, (ast.FunctionDef, ast.ClassDef)):
                         k += rewrite(blk, f, counts)
-            if isinstance(a, ast.Assign) and len(a.targets) == 1 and isinstance(a.targets[0], ast.Name) and counts.get(a.targets[0].id) == (1, 1):
+            if isinstance(a, ast.Assign) and len(a.targets) == 1 and isinstance(a.targets[0], ast.Name) and a.targets[0].id in counts and \
+                    (counts[a.targets[0].id] == (1, 1) or a.targets[0].id in multi):
                 name = a.targets[0].id
                 uses = [n for n in header_nodes(b) if isinstance(n, ast.Name) and n.id == name and isinstance(n.ctx, ast.Load)]
                 impure = any(isinstance(x, (ast.Yield, ast.YieldFrom, ast.Await, ast.NamedExpr)) or
@@ -2170,6 +2171,23 @@ def inline_single_use_temporaries(index):
                 for h in st.handlers:
                     k += rewrite(h.body, f, counts)
         return k
+    multi = set()
+
+    def adjacent_pairs(stmts, acc):
+        """names -> number of `t = E` statements directly followed by a statement whose header reads t exactly once"""
+        for i_, st in enumerate(stmts):
+            for fld in ("body", "orelse", "finalbody"):
+                blk = getattr(st, fld, None)
+                if isinstance(blk, list) and blk and isinstance(blk[0], ast.stmt) and not isinstance(st, (ast.FunctionDef, ast.ClassDef)):
+                    adjacent_pairs(blk, acc)
+            if isinstance(st, ast.Try):
+                for h in st.handlers:
+                    adjacent_pairs(h.body, acc)
+            if isinstance(st, ast.Assign) and len(st.targets) == 1 and isinstance(st.targets[0], ast.Name) and i_ + 1 < len(stmts):
+                nm = st.targets[0].id
+                uses = [n for n in header_nodes(stmts[i_ + 1]) if isinstance(n, ast.Name) and n.id == nm and isinstance(n.ctx, ast.Load)]
+                if len(uses) == 1:
+                    acc[nm] = acc.get(nm, 0) + 1
     for f in index.all_functions():
         stores, loads = {}, {}
         for n in ast.walk(f.node):
@@ -2180,6 +2198,15 @@ def inline_single_use_temporaries(index):
         for nm in list(counts):
             if nm in f.params:
                 counts.pop(nm)
+        # a name bound several times (an unrolled loop's flag): every binding is a plain assignment followed at once by its only use
+        pairs = {}
+        adjacent_pairs(f.node.body, pairs)
+        plain = {}
+        for n in ast.walk(f.node):
+            if isinstance(n, ast.Assign) and len(n.targets) == 1 and isinstance(n.targets[0], ast.Name):
+                plain[n.targets[0].id] = plain.get(n.targets[0].id, 0) + 1
+        multi.clear()
+        multi.update(nm for nm, (ns, nl) in counts.items() if ns > 1 and ns == nl == pairs.get(nm, 0) == plain.get(nm, 0))
         k = rewrite(f.node.body, f, counts)
         if k:
             ast.fix_missing_locations(f.node)
